@@ -85,14 +85,26 @@ impl Cleaner {
     /// be leaked and the cleaning action will never be executed.
     #[inline]
     pub fn register(&self, action: impl FnOnce() + 'static) -> Cleanable {
-        let cc = {
+        // Cc::new may start a collection, which runs user code (finalizers, cleaning actions, ...) that may call
+        // register on this same Cleaner. So, no reference to the Option can be kept alive while calling Cc::new
+        // and the Option must be checked again afterward to avoid overwriting (i.e., dropping, thus running the
+        // already registered cleaning actions of) a map created in the meantime.
+        // SAFETY: no reference to the Option already exists
+        if unsafe { (*self.cleaner_map.get()).is_none() } {
+            let new_map = Cc::new(CleanerMap {
+                map: RefCell::new(SlotMap::with_capacity_and_key(3)),
+            });
+
             // SAFETY: no reference to the Option already exists
             let map = unsafe { &mut *self.cleaner_map.get() };
+            if map.is_none() {
+                *map = Some(new_map);
+            }
+            // Otherwise new_map (which is empty) is simply dropped here
+        }
 
-            map.get_or_insert_with(|| Cc::new(CleanerMap {
-                map: RefCell::new(SlotMap::with_capacity_and_key(3)),
-            }))
-        };
+        // SAFETY: no mutable reference to the Option exists and the Option has just been set to Some if it was None
+        let cc = unsafe { (*self.cleaner_map.get()).as_ref() }.expect("the cleaner map has just been initialized");
 
         let map_key = cc.map.borrow_mut().insert(CleaningAction(Some(Box::new(action))));
 
